@@ -144,6 +144,9 @@ class LFRicExtractTrans(ExtractTrans):
 
         ctu = CallTreeUtils()
         nodes = self.get_node_list(nodes)
+        # Validate before the region name is reserved and before a driver
+        # is written, so that a refused transformation has no side effects.
+        self.validate(nodes, my_options)
         region_name = self.get_unique_region_name(nodes, my_options)
         my_options["region_name"] = region_name
         my_options["prefix"] = my_options.get("prefix", "extract")
